@@ -35,6 +35,9 @@ var AllConfigs = []Config{
 	{DeptFK: schema.FkIndexNullable, BossCascade: boltz.CascadeDelete, BossNullable: true, Children: false},
 	{DeptFK: schema.FkIndexCascade, BossCascade: boltz.CascadeCreateUpdate, BossNullable: true, Children: true},
 	{DeptFK: schema.FkIndex, BossCascade: boltz.CascadeNone, BossNullable: false, Children: false},
+	// two cascading foreign keys at once: a department's delete takes its employees along, an employee's delete its
+	// subordinates - who may be employees of the same department, reached twice
+	{DeptFK: schema.FkIndexCascade, BossCascade: boltz.CascadeDelete, BossNullable: true, Children: false},
 }
 
 const (
